@@ -80,6 +80,15 @@ def run(ctx):
                 i = len(cases)
                 cases.append(mkcase('V%d' % i, lib.new_cfg(json_opts=(st, False)), json.dumps(v).encode())); exp['V%d' % i] = [expected(conv(v))]
     impl, model, mism = common.correspond(cases)
+    # rows larger than any internal buffer, followed and preceded by small ones (the model is too slow for these sizes: the strict
+    # reader and the fixpoint relation below are the oracle)
+    bigc = []
+    for k, big in enumerate(['x' * 70000, ['y' * 30000, 'z' * 40000], {'k' * 300: ['w' * 66000]}, list(range(15000))]):
+        for st in ('oneline', 'pretty', 'consise'):
+            vals = [1, big, 'small', big, [2, 3], {'a': None}]
+            i = len(cases) + len(bigc)
+            c = mkcase('V%d' % i, lib.new_cfg(json_opts=(st, False)), '\n'.join(json.dumps(v) for v in vals).encode()); bigc.append(c); exp['V%d' % i] = [expected(conv(v)) for v in vals]
+    impl.update(lib.run_harness(bigc)); cases += bigc
     # second pass: feed the output back with the same options
     second = []
     for c in cases:
